@@ -153,11 +153,7 @@ def levelInRange (i : Int) : Bool := decide (-maxLevel ≤ i) && decide (i ≤ m
 /-- "m.room.power_levels events accept values as strings" (v1–v9): a base-10 integer, optionally
 with leading zeros, optionally prefixed with a single `-` or `+`, optionally surrounded by
 white space. -/
-def integerString (s : Str) : Read Int :=
-  match trim s with
-  | 43 :: ds => if !ds.isEmpty && ds.all isDigit then some (Int.ofNat (digitsVal ds)) else none
-  | 45 :: ds => if !ds.isEmpty && ds.all isDigit then some (-(Int.ofNat (digitsVal ds))) else none
-  | ds => if !ds.isEmpty && ds.all isDigit then some (Int.ofNat (digitsVal ds)) else none
+def integerString (s : Str) : Read Int := signedDecimal (trim s)
 
 /-- A power level value in room version `v` (R2). -/
 def levelValue (v : Nat) (j : JVal) : Read Int :=
@@ -341,15 +337,20 @@ def publicKeysOf (c : Obj) : Read (List Str) :=
     | some _ => none
   single.bind fun a => list.map fun b => a ++ b
 
+/-- The (key id, signature) pairs of one entity of a `signatures` object; entries that are not
+strings carry no signature. -/
+def entitySignatures (kvs : List (Str × JVal)) : List (Str × Str) :=
+  kvs.filterMap fun kv =>
+    match kv.2 with
+    | .str s => some (kv.1, s)
+    | _ => none
+
 /-- All (key id, signature) pairs in a `signatures` object (`{entity: {key id: signature}}`).
-Entries that are not strings carry no signature. Domain: every entity's value is an object. -/
+Domain: every entity's value is an object. -/
 def signaturePairs (sigs : Obj) : List (Str × Str) :=
   sigs.flatMap fun ent =>
     match ent.2 with
-    | .obj kvs => kvs.filterMap fun kv =>
-        match kv.2 with
-        | .str s => some (kv.1, s)
-        | _ => none
+    | .obj kvs => entitySignatures kvs
     | _ => []
 
 /-- 4.4.1 `membership` is `invite` and `content` has a `third_party_invite` property. -/
